@@ -62,7 +62,7 @@ impl Encoder<Bytes> for Identity {
     type Error = Error;
 
     fn encode(&mut self, item: Bytes, dst: &mut bytes::BytesMut) -> Result<(), Self::Error> {
-        if item.len() > self.payload_len || item.is_empty() {
+        if item.len() != self.payload_len {
             return Err(Error::InvalidData);
         }
 
